@@ -76,7 +76,12 @@ def hRaw : Handler := fun r =>
       | some [] => "n/a"           -- the empty stream is not a FIT stream
       | some seqs =>
         let segs := (seqs.map Fit.FitFormat.segmentsOf).flatten
-        let (dl, db) := digests (segs.map fun s => (kindFlag s.1, Fit.FitFormat.slice bs s.2.1 s.2.2))
+        -- the segments of a parsed stream are consecutive: cut them off a running remainder (a segment whose offset is
+        -- not the running position would show as a different digest)
+        let (cut, _, _) := segs.foldl (fun (acc : List (Nat × Bytes) × Nat × Bytes) s =>
+          let rest := if s.2.1 == acc.2.1 then acc.2.2 else bs.drop s.2.1
+          ((kindFlag s.1, rest.take s.2.2) :: acc.1, s.2.1 + s.2.2, rest.drop s.2.2)) ([], 0, bs)
+        let (dl, db) := digests cut.reverse
         s!"ok n={bs.length} q={seqs.length} segs={segs.length} l={hexN 16 dl.toNat} d={hexN 16 db.toNat}"
     | .kf => "-"
     | .prop => "n/a"
